@@ -451,7 +451,7 @@ pub fn gen_and_run(seed: u64, index: u64, scratch: &str, cfg: &GenCfg, fenced: &
         }
     }
     if rng.chance(1, 4) {
-        layout.target_form = rng.pick(&["abs", "slash", "dotdot"]).to_string();
+        layout.target_form = rng.pick(&["abs", "slash", "dotdot", "abs_outside"]).to_string();
     }
     // files elsewhere in the project directory that must be ignored
     let mut outside: Vec<SrcFile> = vec![];
